@@ -65,20 +65,23 @@ func init() {
 		in := fs.String("cases", "-", "case ndjson")
 		out := fs.String("out", "-", "mismatch ndjson")
 		fs.Parse(args)
-		var cases []knownCase
-		readLines(openIn(*in), func(line []byte) {
-			var k knownCase
-			if err := json.Unmarshal(line, &k); err != nil {
-				fatal(err)
-			}
-			cases = append(cases, k)
-		})
 		w := newNDWriter(*out)
 		defer w.Close()
 		names := []string{"@a", "@b", "@c"}
-		var judged, skipped, mism int64
-		parallelFor(len(cases), func(i int) {
-			c := cases[i]
+		var judged, skipped, mism, total int64
+		// the cases are judged in batches as they are read (the thorough tier has millions)
+		var cases []knownCase
+		base := 0
+		var judge func(i int)
+		flush := func() {
+			parallelFor(len(cases), judge)
+			base += len(cases)
+			total += int64(len(cases))
+			cases = cases[:0]
+		}
+		judge = func(j int) {
+			c := cases[j]
+			i := base + j
 			if c.Want == "unspec" {
 				atomic.AddInt64(&skipped, 1)
 				return
@@ -123,10 +126,23 @@ func init() {
 			}
 			if bad != "" {
 				atomic.AddInt64(&mism, 1)
-				w.Write(knownMismatch{c, texts, strings.Join(order, ","), o, bad})
+				if mism <= 5000 {
+					w.Write(knownMismatch{c, texts, strings.Join(order, ","), o, bad})
+				}
+			}
+		}
+		readLines(openIn(*in), func(line []byte) {
+			var k knownCase
+			if err := json.Unmarshal(line, &k); err != nil {
+				fatal(err)
+			}
+			cases = append(cases, k)
+			if len(cases) >= 50000 {
+				flush()
 			}
 		})
-		b, _ := json.Marshal(map[string]int64{"cases": int64(len(cases)), "judged": judged, "unspec": skipped, "mismatches": mism})
+		flush()
+		b, _ := json.Marshal(map[string]int64{"cases": total, "judged": judged, "unspec": skipped, "mismatches": mism})
 		fmt.Fprintln(os.Stderr, "@@SUMMARY "+string(b))
 		return 0
 	})
